@@ -109,6 +109,13 @@ def prio (dflt : BV4) : List (BV4 × BV4) → BV4
   | [] => dflt
   | (c, v) :: rest => if c.bit 0 = .t then v else prio dflt rest
 
+/-- sequential program `x = d; if sel = k₁ then x = a₁; if sel = k₂ then x = a₂; …`: the last matching assignment wins -/
+def ifChain (sel d : BV4) (steps : List (Nat × BV4)) : BV4 :=
+  steps.foldl (fun x (ka : Nat × BV4) => if sel.toNat = ka.1 then ka.2 else x) d
+/-- `x = d; if c₁ then x = a₁; if c₂ then x = a₂; …` -/
+def ifPrio (d : BV4) (steps : List (BV4 × BV4)) : BV4 :=
+  steps.foldl (fun x (ca : BV4 × BV4) => if ca.1.bit 0 = .t then ca.2 else x) d
+
 /-! ## literals: `[width] base digits`, most significant digit first; `x` digits are undefined -/
 def digitVal (c : Char) : Option Nat :=
   if c.isDigit then some (c.toNat - '0'.toNat)
